@@ -67,7 +67,7 @@ HasOcc(o, t) == CASE o.kind \in {"static", "env"}        -> TRUE
                   [] o.kind = "dyn-none"                 -> t = o.t0
                   [] o.kind \in {"dyn-traj", "dyn-set"}  -> o.t0 <= t /\ t <= o.t0 + o.n
                   [] o.kind = "phantom-set"              -> o.t0 <= t /\ t <= o.t0 + o.n - 1
-First(o) == o.t0
+First(o) == IF TimeInvariant(o) THEN 0 ELSE o.t0
 Last(o)  == CASE o.kind \in {"dyn-traj", "dyn-set"} -> o.t0 + o.n [] o.kind = "phantom-set" -> o.t0 + o.n - 1
               [] o.kind = "dyn-none" -> o.t0 [] OTHER -> TMax + 1
 (* Is the occupancy of o at time t among the obstacle shapes drawn for the window [b, e]?  occ(o, t) = the model has one.
